@@ -52,6 +52,7 @@ def state_dependent_pars(spec):
 
 def check(spec):
     b, res = simcase.run_spec(spec)
+    oracles.check_structure(spec, res, ID, ("links", "residual"))
     rp = replay.Replay(res)
     pre = b["preflush"]
     T = len(res.t)
